@@ -187,6 +187,13 @@ class Report:
                 except Exception as e:
                     rep = {"failed": False, "error": f"replay crashed: {type(e).__name__}: {e}"}
             failed = bool(rep and rep.get("failed"))
+            cr = None
+            if isinstance(ob.detail, dict):
+                cr = ob.detail.get("counterexample_replay") or (ob.detail.get("model") or {}).get("counterexample_replay") if isinstance(ob.detail.get("model"), dict) or ob.detail.get("counterexample_replay") else None
+            if cr and cr.get("real_code_fails"):
+                # the verifier's own counterexample, shrunk to a small shape, fails on the real code
+                rep = {"failed": True, "source": "verifier counterexample (shrunk) replayed on the real code", **cr}
+                failed = True
             if not failed and ob.id not in baseline.get(self.prop, []) and baseline.get(self.prop) is not None and not os.environ.get("QV_STRICT"):
                 # refuted, not reproduced, and never proved on the unchanged tree: contract suspect -> undecided
                 ob.status = smt.UNDECIDED
@@ -392,7 +399,7 @@ class Case:
 
 def run_case(rep: Report, prop, qual, name, setup, post, *, contracts=None, loop_rules=None, lib=None,
              scope="all-shapes", replay=None, timeout_s=10.0, expect="return", inline=(), clauses=None,
-             site_obligations=True, max_paths=400, loop_end=False, algebra=False):
+             site_obligations=True, max_paths=400, loop_end=False, algebra=False, model_replay=None):
     """Symbolically execute `qual` on the inputs built by setup(interp, ctx) over every feasible path.
     post(interp, ctx, outcome, value, aux) yields (clause, status, backend, secs, detail) tuples or
     (clause, nc_a, nc_b) equalities or (clause, z3cond).  A clause is proved iff proved on every path.
@@ -404,6 +411,7 @@ def run_case(rep: Report, prop, qual, name, setup, post, *, contracts=None, loop
     lib = lib or Library()
     ctx = Ctx(name=f"{qual}[{name}]", timeout_s=timeout_s)
     ctx.use_algebra = algebra
+    ctx.model_replay = model_replay        # run-time contract on concrete inputs: used to replay shrunk counterexamples on the real code
     per_clause = {}
     t0 = time.time()
     reach_error = None
@@ -513,6 +521,92 @@ def run_case(rep: Report, prop, qual, name, setup, post, *, contracts=None, loop
     return out
 
 
+def model_inputs(hyps, neg_goal, stores, bounds=(2, 3, 4, 6), timeout_s=10.0, max_cells=4000):
+    """Counterexample shrinking: re-solve the refuted query with every shape variable of the input arrays bounded by a small
+    constant and read the input arrays off the model.  Returns {name: numpy array} or None."""
+    import z3
+    import numpy as np
+    dimv = []
+    for _, shape, _ in stores:
+        for d in shape:
+            dz = getattr(d, "z", None)
+            if dz is not None:
+                for v in _int_consts(dz):
+                    if all(not v.eq(x) for x in dimv):
+                        dimv.append(v)
+    for B in bounds:
+        s = z3.Solver()
+        s.set("timeout", int(timeout_s * 1000))
+        for h in hyps:
+            s.add(h)
+        s.add(neg_goal)
+        for v in dimv:
+            s.add(v >= 1, v <= B)
+        if s.check() != z3.sat:
+            continue
+        m = s.model()
+        out = {}
+        try:
+            for name, shape, f in stores:
+                dims = []
+                for d in shape:
+                    if isinstance(d, int):
+                        dims.append(d)
+                    else:
+                        dims.append(m.eval(d.z, model_completion=True).as_long())
+                if any(x <= 0 for x in dims) or int(np.prod(dims)) > max_cells:
+                    raise ValueError("shape")
+                arr = np.zeros(dims)
+                for idx in np.ndindex(*dims):
+                    val = m.eval(f(*[z3.IntVal(int(i)) for i in idx]), model_completion=True)
+                    arr[idx] = _to_float(val)
+                out[name] = arr
+        except Exception:
+            continue
+        return out
+    return None
+
+
+def _int_consts(e):
+    import z3
+    out, seen, stack = [], set(), [e]
+    while stack:
+        x = stack.pop()
+        if x.get_id() in seen:
+            continue
+        seen.add(x.get_id())
+        if z3.is_const(x) and x.decl().kind() == z3.Z3_OP_UNINTERPRETED and x.sort() == z3.IntSort():
+            out.append(x)
+        stack.extend(x.children())
+    return out
+
+
+def _to_float(v):
+    import z3
+    if z3.is_rational_value(v):
+        return float(v.numerator_as_long()) / float(v.denominator_as_long())
+    if z3.is_algebraic_value(v):
+        return float(v.approx(20).numerator_as_long()) / float(v.approx(20).denominator_as_long())
+    return float(str(v))
+
+
+def concrete_replay(ctx, z_goal):
+    """If the case registered a run-time contract for its inputs (ctx.model_replay), shrink the counterexample of the refuted goal,
+    build the input arrays and run the contract on the REAL code.  Returns a dict for the obligation's detail, or None."""
+    fn = getattr(ctx, "model_replay", None)
+    if fn is None or z_goal is None or isinstance(z_goal, bool):
+        return None
+    import z3
+    try:
+        inputs = model_inputs(ctx.hyps(), z3.Not(z_goal), ctx.ghost.get("input_stores", []))
+        if inputs is None:
+            return {"concrete_inputs": None, "note": "no small counterexample (shape bounds 2..6) within the time limit"}
+        res = fn(inputs)
+        return {"concrete_inputs": _jsonable(inputs), "real_code_fails": bool(res), "real_code_result": _jsonable(res)}
+    except Exception as e:
+        return {"concrete_inputs": None, "note": f"replay of the counterexample crashed: {type(e).__name__}: {e}"}
+
+
 def _record_clause(per_clause, item, ctx, timeout_s):
     from .sym import as_z3bool, SBool
     clause = item[0]
@@ -539,6 +633,10 @@ def _record_clause(per_clause, item, ctx, timeout_s):
                 st, be, sc, det = v.status, v.backend, v.secs, ({"model": v.model, "goal": str(z)[:300]} if v.status != smt.PROVED else None)
                 if st == smt.REFUTED and ctx.uncertain:
                     st = smt.UNDECIDED
+                if st == smt.REFUTED:
+                    cr = concrete_replay(ctx, z)
+                    if cr is not None:
+                        det["counterexample_replay"] = cr
     else:
         raise ValueError(f"bad clause item {item!r}")
     per_clause.setdefault(clause, []).append((st, be, sc, det))
